@@ -110,9 +110,11 @@ func checkMissingWhereConditions(db *gorm.DB) {
 	if !db.AllowGlobalUpdate && db.Error == nil {
 		where, withCondition := db.Statement.Clauses["WHERE"]
 		if withCondition {
+			whereClause, isWhere := where.Expression.(clause.Where)
 			if _, withSoftDelete := db.Statement.Clauses["soft_delete_enabled"]; withSoftDelete {
-				whereClause, _ := where.Expression.(clause.Where)
 				withCondition = len(whereClause.Exprs) > 1
+			} else if isWhere {
+				withCondition = len(whereClause.Exprs) > 0
 			}
 		}
 		if !withCondition {
